@@ -238,15 +238,23 @@ func (w *World) prepareAxioms() error {
 
 func pkgFunctions(prog *ssa.Program, sp *ssa.Package) map[string]*ssa.Function {
 	out := map[string]*ssa.Function{}
+	// function literals are addressable as PARENT$n (go/ssa's ordinal, in source order)
+	var add func(fn *ssa.Function)
+	add = func(fn *ssa.Function) {
+		out[fn.RelString(sp.Pkg)] = fn
+		for _, a := range fn.AnonFuncs {
+			add(a)
+		}
+	}
 	for _, m := range sp.Members {
 		switch x := m.(type) {
 		case *ssa.Function:
-			out[x.RelString(sp.Pkg)] = x
+			add(x)
 		case *ssa.Type:
 			if n, ok := x.Type().(*types.Named); ok {
 				for i := 0; i < n.NumMethods(); i++ {
 					if fn := prog.FuncValue(n.Method(i)); fn != nil {
-						out[fn.RelString(sp.Pkg)] = fn
+						add(fn)
 					}
 				}
 			}
@@ -614,6 +622,20 @@ func report(w *World, obs []*Obligation, reports []*funcReport, toolErrors, trus
 		if len(samples) < 12 && ob.Solver != "trivial" {
 			samples = append(samples, obJSON{ob.Name, ob.Kind, ob.Func, ob.Pos, ob.Src, ob.Result, ob.Solver, ob.Time})
 		}
+	}
+	// the slowest discharged obligations: how much margin the timeouts leave
+	var slow []*Obligation
+	for _, ob := range obs {
+		if ob.Result == "discharged" && ob.Kind != "cover" && ob.Kind != "canary" {
+			slow = append(slow, ob)
+		}
+	}
+	sort.Slice(slow, func(i, j int) bool { return slow[i].Time > slow[j].Time })
+	for i, ob := range slow {
+		if i >= 8 {
+			break
+		}
+		samples = append(samples, obJSON{ob.Name + " (slowest #" + fmt.Sprint(i+1) + ")", ob.Kind, ob.Func, ob.Pos, ob.Src, ob.Result, ob.Solver, ob.Time})
 	}
 	// report violations
 	violations := 0
